@@ -161,8 +161,34 @@ def run(prop, seed, budget, ctx):
             p_fail = True; why.append("order-differs-from-the-specified-permutation")
         if k_fail or p_fail:
             c["kind"] = "P" if p_fail else "K"; c["why"] = why or "model and implementation disagree"; failures.append(c)
-    return {"evaluations": len(meta), "distinct_nontrivial": len(distinct),
-            "rule": "generated dataclasses (1-4 fields, 0-2 serialized methods, order value/after/before/overriding) x 4 views (serialize, both schemas, GraphQL object type); "
+    # a class-level order registered (or replaced) after the class has been used: every view follows the specification of the moment
+    import itertools
+    from apischema import order as _order, serialize as _ser
+    from apischema.json_schema import serialization_schema as _ss, deserialization_schema as _ds
+    late_src = []
+    nlate = 10 * budget
+    for i in range(nlate): late_src += ["@dataclass", f"class LO{i}:", "    f0: int = 0", "    f1: int = 0", "    f2: int = 0", "    f3: int = 0", ""]
+    lmod = build(late_src, f"olate{seed}")
+    late_n = 0
+    for i in range(nlate):
+        cls = getattr(lmod, f"LO{i}")
+        views = lambda: {"serialize": list(_ser(cls, cls())), "serialization_schema": list(_ss(cls)["properties"]), "deserialization_schema": list(_ds(cls)["properties"])}
+        first = views()
+        perms = [list(p) for p in itertools.permutations(["f0", "f1", "f2", "f3"])]
+        hist_l = [["use", first["serialize"]]]
+        for step in range(2):
+            perm = rnd.choice(perms)
+            if rnd.random() < 0.5: _order(perm)(cls); spec = "order(%r)" % (perm,)
+            else: _order({n: _order(k) for k, n in enumerate(perm)})(cls); spec = "order({name: order(position)}) for %r" % (perm,)
+            got = views(); late_n += 1; distinct.add(("late-order", i, step, tuple(perm)))
+            hist_l.append([spec, got["serialize"]])
+            bad = {k: v for k, v in got.items() if v != perm}
+            if bad:
+                failures.append({"kind": "P", "k_ok": True, "part": "late-order", "cls": f"LO{i}", "class_src": ["@dataclass class with int fields f0..f3, no order at definition"], "history": hist_l,
+                                 "expected": perm, "views": got, "why": ["order-registered-after-first-use-not-followed:" + ",".join(sorted(bad))]})
+                break
+    return {"evaluations": len(meta) + late_n, "distinct_nontrivial": len(distinct),
+            "rule": "a class-level order registered after first use (all views follow it); generated dataclasses (1-4 fields, 0-2 serialized methods, order value/after/before/overriding) x 4 views (serialize, both schemas, GraphQL object type); "
                     "non-trivial = at least one order() or overriding; distinct by (view, fields, orders)",
             "samples": [{k: meta[i][k] for k in ("class_src", "view", "real", "model")} for i in range(0, min(len(meta), 9), 3)],
             "histograms": dict(hist), "failures": failures,
@@ -174,6 +200,7 @@ def is_known(kid, case):
         and case.get("why") == ["field-lost-or-duplicated"]
 
 def replay(prop, case, ctx):
+    if case.get("part") == "late-order": return {k: case[k] for k in ("class_src", "history", "expected", "views", "why")}
     mod = build(case["class_src"], "replay")
     obs = observe(getattr(mod, case["cls"]), case["names"], case["nf"])[case["view"]]
     m = model([{"elts": [[x, case["ords"][x]] for x in case["elts"]], "overriding": case["overriding"]}])[0]
